@@ -15,8 +15,10 @@ package asr
 //@   requires forall i int :: {cur.neigh[i]} 0 <= i && i < len(cur.neigh) ==> cur.neigh[i] != nil
 //@   call asr.parsimonyUPPASS [recursion_goes_to_the_children_only] a0 == child && a0 != prev && a1 == cur && a3 == seqs && a4 == nsteps
 //@   loop 2
+//@     complete [all_iterations_no_early_exit]
 //@     invariant [expansion_is_every_state_but_gap_and_other_whatever_the_iteration_order] forall x uint8 :: (exists k int :: {possibilities[k]} 0 <= k && k < len(possibilities) && possibilities[k] == x) <==> (visited(1, x) && x != 45 && x != 42)
 //@   loop 9
+//@     complete [all_iterations_no_early_exit]
 //@     step [one_step_per_child_lacking_the_kept_state] next(nsteps[j]) == atHead(nsteps[j]) + (child != prev && seqs[child.id].seq[j].counts[maxState] == 0.0 ? 1 : 0)
 
 //@ func asr.computeParsimony
@@ -26,9 +28,11 @@ package asr
 //@   assigns elems(currentStates.counts)
 //@   ensures [indicator_of_the_maxima] forall k int :: {currentStates.counts[k]} 0 <= k && k < len(neighborStates.counts) ==> (currentStates.counts[k] == 1.0 || currentStates.counts[k] == 0.0) && (currentStates.counts[k] == 1.0 <==> (forall j int :: {old(neighborStates.counts[j])} 0 <= j && j < len(neighborStates.counts) ==> old(neighborStates.counts[j]) <= old(neighborStates.counts[k])))
 //@   loop 1
+//@     complete [all_iterations_no_early_exit]
 //@     invariant [running_max_bounds_scanned_prefix] max >= 0.0 && (forall j int :: {neighborStates.counts[j]} 0 <= j && j <= rangeindex ==> neighborStates.counts[j] <= max)
 //@     invariant [running_max_is_attained_or_zero] max == 0.0 || (exists j int :: {neighborStates.counts[j]} 0 <= j && j <= rangeindex && neighborStates.counts[j] == max)
 //@   loop 2
+//@     complete [all_iterations_no_early_exit]
 //@     assigns elems(currentStates.counts)
 //@     invariant [max_bounds_all] forall j int :: {old(neighborStates.counts[j])} 0 <= j && j < len(neighborStates.counts) ==> old(neighborStates.counts[j]) <= max
 //@     invariant [max_attained_or_zero] max == 0.0 || (exists j int :: {old(neighborStates.counts[j])} 0 <= j && j < len(neighborStates.counts) && old(neighborStates.counts[j]) == max)
@@ -63,17 +67,21 @@ package asr
 //@   flag noframe
 //@   requires cur != nil && (prev != nil ==> siteok(seqs, cur.id, prev.id, len(charToIndex)))
 //@   loop 1
+//@     complete [every_child_is_treated_no_early_exit]
 //@     invariant [table_shape] prev != nil && siteok(seqs, cur.id, prev.id, len(charToIndex))
 //@   loop 2
+//@     complete [all_iterations_no_early_exit]
 //@     invariant [own_states_copied_so_far] len(state.counts) == len(charToIndex) && fresh_arr(state.counts) && (forall k int :: {state.counts[k]} 0 <= k && k < len(state.counts) ==> state.counts[k] == (k <= rangeindex ? lold(ances.counts[k]) : 0.0))
 //@     invariant [table_shape] siteok(seqs, cur.id, prev.id, len(charToIndex)) && ances.counts == seqs[cur.id].seq[j].counts && 0 <= j && j < len(seqs[cur.id].seq) && !fresh_arr(ances.counts) && !fresh_arr(seqs[prev.id].seq[j].counts)
 //@     invariant [tables_untouched] (forall k int :: {ances.counts[k]} {seqs[prev.id].seq[j].counts[k]} 0 <= k && k < len(charToIndex) ==> ances.counts[k] == lold(ances.counts[k]) && seqs[prev.id].seq[j].counts[k] == lold(seqs[prev.id].seq[j].counts[k]))
 //@   loop 3
+//@     complete [all_iterations_no_early_exit]
 //@     invariant [parent_states_added_so_far] len(state.counts) == len(charToIndex) && fresh_arr(state.counts) && (forall k int :: {state.counts[k]} 0 <= k && k < len(state.counts) ==> state.counts[k] == lold(ances.counts[k]) + (k <= rangeindex ? lold(seqs[prev.id].seq[j].counts[k]) : 0.0))
 //@     invariant [no_shared_state_seen_so_far_iff_flag] nullIntersection <==> (forall k int :: {state.counts[k]} 0 <= k && k <= rangeindex ==> state.counts[k] <= 1.0)
 //@     invariant [table_shape] siteok(seqs, cur.id, prev.id, len(charToIndex)) && ances.counts == seqs[cur.id].seq[j].counts && 0 <= j && j < len(seqs[cur.id].seq) && !fresh_arr(ances.counts) && !fresh_arr(seqs[prev.id].seq[j].counts)
 //@     invariant [tables_untouched] (forall k int :: {ances.counts[k]} {seqs[prev.id].seq[j].counts[k]} 0 <= k && k < len(charToIndex) ==> ances.counts[k] == lold(ances.counts[k]) && seqs[prev.id].seq[j].counts[k] == lold(seqs[prev.id].seq[j].counts[k]))
 //@   loop 4
+//@     complete [all_iterations_no_early_exit]
 //@     invariant [sums_kept] len(state.counts) == len(charToIndex) && fresh_arr(state.counts) && (forall k int :: {state.counts[k]} 0 <= k && k < len(state.counts) ==> state.counts[k] == lold(state.counts[k]) && state.counts[k] == lold(ances.counts[k]) + lold(seqs[prev.id].seq[j].counts[k]))
 //@     invariant [node_keeps_exactly_the_states_shared_with_its_parent_at_this_site] forall k int :: {ances.counts[k]} 0 <= k && k < len(charToIndex) ==> ances.counts[k] == (k <= rangeindex ? (lold(ances.counts[k]) + lold(seqs[prev.id].seq[j].counts[k]) > 1.0 ? 1.0 : 0.0) : lold(ances.counts[k]))
 //@     invariant [table_shape] siteok(seqs, cur.id, prev.id, len(charToIndex)) && ances.counts == seqs[cur.id].seq[j].counts && 0 <= j && j < len(seqs[cur.id].seq) && !fresh_arr(ances.counts) && !fresh_arr(seqs[prev.id].seq[j].counts)
@@ -89,19 +97,24 @@ package asr
 //@   requires cur != nil
 //@   requires forall i int :: {cur.neigh[i]} 0 <= i && i < len(cur.neigh) ==> cur.neigh[i] != nil && siteok(seqs, cur.id, cur.neigh[i].id, len(charToIndex))
 //@   loop 1
+//@     complete [every_child_is_treated_no_early_exit]
 //@     invariant [table_shape] cur != nil && (forall i int :: {cur.neigh[i]} 0 <= i && i < len(cur.neigh) ==> cur.neigh[i] != nil && siteok(seqs, cur.id, cur.neigh[i].id, len(charToIndex)))
 //@   loop 2
+//@     complete [all_iterations_no_early_exit]
 //@     invariant [table_shape] cur != nil && child != nil && siteok(seqs, cur.id, child.id, len(charToIndex)) && (forall i int :: {cur.neigh[i]} 0 <= i && i < len(cur.neigh) ==> cur.neigh[i] != nil && siteok(seqs, cur.id, cur.neigh[i].id, len(charToIndex)))
 //@   loop 3
+//@     complete [all_iterations_no_early_exit]
 //@     invariant [child_states_copied_so_far] len(state.counts) == len(charToIndex) && fresh_arr(state.counts) && (forall k int :: {state.counts[k]} 0 <= k && k < len(state.counts) ==> state.counts[k] == (k <= rangeindex ? lold(seqs[child.id].seq[j].counts[k]) : 0.0))
 //@     invariant [table_shape] siteok(seqs, cur.id, child.id, len(charToIndex)) && ances.counts == seqs[cur.id].seq[j].counts && 0 <= j && j < len(seqs[cur.id].seq) && !fresh_arr(ances.counts) && !fresh_arr(seqs[child.id].seq[j].counts)
 //@     invariant [tables_untouched] forall k int :: {ances.counts[k]} {seqs[child.id].seq[j].counts[k]} 0 <= k && k < len(charToIndex) ==> ances.counts[k] == lold(ances.counts[k]) && seqs[child.id].seq[j].counts[k] == lold(seqs[child.id].seq[j].counts[k])
 //@   loop 4
+//@     complete [all_iterations_no_early_exit]
 //@     invariant [node_states_added_so_far] len(state.counts) == len(charToIndex) && fresh_arr(state.counts) && (forall k int :: {state.counts[k]} 0 <= k && k < len(state.counts) ==> state.counts[k] == lold(seqs[child.id].seq[j].counts[k]) + (k <= rangeindex ? lold(ances.counts[k]) : 0.0))
 //@     invariant [no_shared_state_seen_so_far_iff_flag] nullIntersection <==> (forall k int :: {state.counts[k]} 0 <= k && k <= rangeindex ==> state.counts[k] <= 1.0)
 //@     invariant [table_shape] siteok(seqs, cur.id, child.id, len(charToIndex)) && ances.counts == seqs[cur.id].seq[j].counts && 0 <= j && j < len(seqs[cur.id].seq) && !fresh_arr(ances.counts) && !fresh_arr(seqs[child.id].seq[j].counts)
 //@     invariant [tables_untouched] forall k int :: {ances.counts[k]} {seqs[child.id].seq[j].counts[k]} 0 <= k && k < len(charToIndex) ==> ances.counts[k] == lold(ances.counts[k]) && seqs[child.id].seq[j].counts[k] == lold(seqs[child.id].seq[j].counts[k])
 //@   loop 5
+//@     complete [all_iterations_no_early_exit]
 //@     invariant [sums_kept] len(state.counts) == len(charToIndex) && fresh_arr(state.counts) && (forall k int :: {state.counts[k]} 0 <= k && k < len(state.counts) ==> state.counts[k] == lold(state.counts[k]) && state.counts[k] == lold(seqs[child.id].seq[j].counts[k]) + lold(ances.counts[k]))
 //@     invariant [child_keeps_exactly_the_states_shared_with_the_node_at_this_site] forall k int :: {seqs[child.id].seq[j].counts[k]} 0 <= k && k < len(charToIndex) ==> seqs[child.id].seq[j].counts[k] == (k <= rangeindex ? (lold(seqs[child.id].seq[j].counts[k]) + lold(ances.counts[k]) > 1.0 ? 1.0 : 0.0) : lold(seqs[child.id].seq[j].counts[k]))
 //@     invariant [table_shape] siteok(seqs, cur.id, child.id, len(charToIndex)) && ances.counts == seqs[cur.id].seq[j].counts && 0 <= j && j < len(seqs[cur.id].seq) && !fresh_arr(ances.counts) && !fresh_arr(seqs[child.id].seq[j].counts)
@@ -124,9 +137,11 @@ package asr
 //@   call asr.assignSequencesToTree [the_comments_are_written_from_the_final_table_and_the_alphabet] a0 == t && a1 == seqs && a2 == alphabet && ghost(ncalls_parsimonyUPPASS) == old(ghost(ncalls_parsimonyUPPASS)) + 1
 //@   ensures [an_unknown_algorithm_is_an_error] algo != ALGO_DELTRAN && algo != ALGO_ACCTRAN && algo != ALGO_DOWNPASS ==> result1 != nil
 //@   loop 1
+//@     complete [all_iterations_no_early_exit]
 //@     invariant [every_index_so_far_points_back_at_its_character] forall c uint8 :: {has(charToIndex, c)} {charToIndex[c]} has(charToIndex, c) ==> 0 <= charToIndex[c] && charToIndex[c] <= rangeindex && alphabet[charToIndex[c]] == c
 //@     invariant [every_character_so_far_has_an_index] forall k int :: {alphabet[k]} 0 <= k && k <= rangeindex ==> has(charToIndex, alphabet[k])
 //@   loop 2
+//@     complete [all_iterations_no_early_exit]
 //@     invariant [tables_have_one_row_per_node] len(seqs) == len(nodes) && len(upseqs) == len(nodes) && arr(seqs) != arr(upseqs)
 
 // NewAncestralSequence: negative sizes are an error; otherwise a fresh sequence with one state per site, each with one
@@ -139,6 +154,7 @@ package asr
 //@   ensures [one_count_per_character_at_every_site] length >= 0 && alphabetlength >= 0 ==> (forall k int :: {result0.seq[k]} 0 <= k && k < length ==> len(result0.seq[k].counts) == alphabetlength && fresh_arr(result0.seq[k].counts))
 //@   ensures [sites_do_not_share_their_counts] length >= 0 && alphabetlength >= 0 ==> (forall k int, j int :: {result0.seq[k], result0.seq[j]} 0 <= k && k < j && j < length ==> arr(result0.seq[k].counts) != arr(result0.seq[j].counts))
 //@   loop 1
+//@     complete [all_iterations_no_early_exit]
 //@     assigns elems(seq.seq)
 //@     invariant [shape] 0 <= i && i <= length && seq != nil && fresh(seq) && len(seq.seq) == length && fresh_arr(seq.seq) && alphabetlength >= 0
 //@     invariant [one_count_per_character_so_far] forall k int :: {seq.seq[k]} 0 <= k && k < i ==> len(seq.seq[k].counts) == alphabetlength && fresh_arr(seq.seq[k].counts) && arr(seq.seq[k].counts) != arr(seq.seq)
@@ -156,8 +172,11 @@ package asr
 //@   call (*bytes.Buffer).WriteRune [a_star_for_an_empty_set_braces_around_a_set_of_several] (a1 == 42 && nb == 0) || ((a1 == 123 || a1 == 125) && nb > 1)
 //@   call (*tree.Node).AddComment [the_text_becomes_a_comment_of_the_node_whose_row_was_read] a0 == n && ancseq == seqs[n.id]
 //@   loop 1
+//@     complete [all_iterations_no_early_exit]
 //@     step [per_node_the_text_is_started_afresh_and_one_comment_is_added] ghost(ncalls_AddComment) == atHead(ghost(ncalls_AddComment)) + 1 && ghost(ncalls_String) == atHead(ghost(ncalls_String)) + 1
 //@   loop 2
+//@     complete [all_iterations_no_early_exit]
 //@     step [per_site_the_set_is_started_afresh_and_copied_once_between_as_many_opening_as_closing_braces] ghost(ncalls_Write) == atHead(ghost(ncalls_Write)) + 1 && ghost(ncalls_Bytes) == atHead(ghost(ncalls_Bytes)) + 1 && ghost(ncalls_WriteRune) == atHead(ghost(ncalls_WriteRune)) + (nb == 0 ? 1 : 0) + (nb > 1 ? 2 : 0)
 //@   loop 3
+//@     complete [all_iterations_no_early_exit]
 //@     step [every_character_with_a_positive_count_is_written_and_counted] next(nb) == nb + (state.counts[rangeindex + 1] > 0.0 ? 1 : 0) && ghost(ncalls_WriteByte) == atHead(ghost(ncalls_WriteByte)) + (state.counts[rangeindex + 1] > 0.0 ? 1 : 0)
